@@ -5,9 +5,11 @@ import (
 	"encoding/json"
 	"fmt"
 	"math/rand/v2"
+	"runtime"
 	"sort"
 	"strings"
 	"sync"
+	"sync/atomic"
 	"time"
 
 	"github.com/anishathalye/porcupine"
@@ -120,6 +122,13 @@ func runC18(r *kit.Run) {
 		}
 		c18Script(r, i, r.Rng("seq", i))
 	}
+	nw := int64(r.Scale(32, 1500))
+	for i := int64(0); i < nw && !r.Stopped(); i++ {
+		if !r.Mine(i) {
+			continue
+		}
+		c18Winner(r, i, r.Rng("winner", i))
+	}
 	nh := int64(r.Scale(1500, 120000))
 	for i := int64(0); i < nh && !r.Stopped(); i++ {
 		if !r.Mine(i) {
@@ -127,6 +136,68 @@ func runC18(r *kit.Run) {
 		}
 		c18History(r, i, r.Rng("conc", i))
 	}
+}
+
+// c18Winner: G long-lived goroutines, aligned by a spinning cyclic
+// barrier, call AddCheck (then DeleteCheck) for the same value on a
+// synchronized set; whatever the order, exactly one of them finds the
+// value absent (present).
+func c18Winner(r *kit.Run, idx int64, rng *rand.Rand) {
+	G := 2 + rng.IntN(5)
+	ordered := rng.IntN(2) == 0
+	rounds := 4000
+	procs := 16
+	s := &dt.Set[int]{}
+	s.Synchronize()
+	if ordered {
+		s.Order()
+	}
+	desc := map[string]any{"mode": "same-value race", "goroutines": G, "ordered": ordered, "rounds": rounds, "gomaxprocs": procs}
+	r.Eval()
+	absent := make([]atomic.Int32, rounds)  // AddCheck calls that found the value absent
+	present := make([]atomic.Int32, rounds) // DeleteCheck calls that found it present
+	var arrive atomic.Int64
+	barrier := func(target int64) {
+		arrive.Add(1)
+		for spins := 0; arrive.Load() < target; spins++ {
+			if spins%200 == 199 {
+				runtime.Gosched()
+			}
+		}
+	}
+	kit.WithProcs(procs, func() {
+		var wg sync.WaitGroup
+		for g := 0; g < G; g++ {
+			wg.Add(1)
+			go func() {
+				defer wg.Done()
+				for v := 0; v < rounds; v++ {
+					barrier(int64(G) * int64(2*v+1))
+					if !s.AddCheck(v) {
+						absent[v].Add(1)
+					}
+					barrier(int64(G) * int64(2*v+2))
+					if s.DeleteCheck(v) {
+						present[v].Add(1)
+					}
+				}
+			}()
+		}
+		wg.Wait()
+	})
+	for v := 0; v < rounds; v++ {
+		if a, p := absent[v].Load(), present[v].Load(); a != 1 || p != 1 {
+			r.Violation("C18/Set.concurrent/same-value-race", idx, desc,
+				fmt.Sprintf("round %d: of %d concurrent AddCheck(%d) calls %d found the value absent, of %d concurrent DeleteCheck(%d) calls %d found it present; exactly one each is possible in any sequential order", v, G, v, a, G, v, p), nil)
+			return
+		}
+	}
+	if got, _ := setIter(s, 4); len(got) != 0 || s.Len() != 0 {
+		r.Violation("C18/Set.concurrent/same-value-race", idx, desc, fmt.Sprintf("after adding and deleting every value the set iterates %v (Len %d)", got, s.Len()), nil)
+		return
+	}
+	r.Count("same_value_race_rounds", int64(rounds))
+	r.Distinct(fmt.Sprintf("winner|g=%d|ord=%v", G, ordered))
 }
 
 func c18Script(r *kit.Run, idx int64, rng *rand.Rand) {
